@@ -45,8 +45,9 @@ CHECKS = {
     "C15": ("fault_enumeration",
             "exhaustive enumeration of scripted formatter-child behaviours (stdin mode x stdout mode x termination) and spawn "
             "faults x bindings size x rustfmt config, each executed against the real Bindings::write under a watchdog",
-            "All 192 consistent (stdin, stdout, termination) behaviours of the formatter child plus 5 spawn faults are executed "
-            "against the real write()/format_tokens path on small and multi-megabyte bindings; write must return Ok in time, the "
+            "All 224 consistent (stdin incl. two streaming modes, stdout, termination) behaviours of the formatter child plus 5 spawn "
+            "faults are executed against the real write()/format_tokens path on bindings of six sizes on both sides of the 64 KiB "
+            "pipe-buffer and 1 MiB boundaries, and 14 behaviours x 4-6 sizes through the real CLI binary ($RUSTFMT); write must return Ok in time, the "
             "header comment and raw lines must appear exactly once and first, and for every failure mode (and the three real "
             "formatter settings) the output must tokenise to the Formatter::None token sequence.",
             "Exit 0/3 with valid UTF-8 is trusted by design and only checked for termination and preamble; trailing commas before "
@@ -129,8 +130,9 @@ CHECKS = {
             "the bindings must compile against a stand-in of the C size/alignment that implements no trait (so no derive went "
             "through it; with a vouching callback the derives must reappear), opaque types must be exact member-less blobs, and the "
             "container's size/alignment/offsets must equal the C compiler's.",
-            "Host target only; C++ bases/template arguments as use positions are not generated; stand-in sizes come from the clang "
-            "probe.",
+            "Host target only; C++ use positions (bases, template arguments, std-like namespaces, derived-from-opaque classes, "
+            "blocklist-file) are a fixed seven-mode part with a clang++-vs-rustc layout probe, not a generated family; stand-in sizes "
+            "come from the clang probe.",
             "6/C10"),
     "C02": ("exploration",
             "exhaustive enumeration of records (<=2 members over 30 member atoms x 12 record attributes x struct/union, member "
@@ -186,7 +188,9 @@ CHECKS = {
             "bindings, the output must compile on its own, patterns are whole-name anchored (prefix traps, alternations), and an item "
             "matched by both lists is absent; unnamed enums are addressed through their variants, also inside namespaces.",
             "Pointer mentions count as dependencies (bindgen defines pointee types it has seen); blocklisted-root and non-recursive "
-            "outputs are not compiled; allowlist-file is exercised only through C13/C17.",
+            "outputs are not compiled; also run: generator-restriction variants (--ignore-functions, --generate types), every split of "
+            "each graph over two included files with --allowlist-file, and an anonymous-items part (three unnamed enums, anonymous "
+            "records; every root subset x four enum styles).",
             "6/C09"),
     "C04": ("exploration",
             "exhaustive enumeration of function signatures over a 51-type alphabet (every type as result / parameter, all ordered "
@@ -196,8 +200,10 @@ CHECKS = {
             "result leaf from it; a rustc-built caller links against that object, calls every function three times through the real "
             "bindings with rotating boundary values and compares with the same fold computed in Rust; linking proves symbol identity, "
             "globals are read/written from both sides and checked for mutability.",
-            "Host ABI (SysV x86-64 + ms_abi) only; long double is left out (no 80-bit float in Rust); C++ methods and foreign-target "
-            "symbol decoration are not generated; a crash of the caller is attributed to its whole library.",
+            "Host ABI (SysV x86-64 + ms_abi) only; long double is left out (no 80-bit float in Rust); foreign-target symbol "
+            "decoration is not generated; C++ classes are a fixed 20-test part linked against a clang++ object (one process per "
+            "test); a linkage part compares every declared symbol with nm for static / inline / extern-inline functions; the fold is "
+            "salted with the function's name so that reaching another function's symbol is observable.",
             "6/C04"),
     "C16": ("exploration",
             "exhaustive enumeration of static / static-inline function signatures over the C04 alphabet x suffix x path x input mode "
@@ -206,8 +212,9 @@ CHECKS = {
             "For every static function the emitted wrapper source must compile against the headers, define exactly one external "
             "<name><suffix> per function that received a binding (variadic statics: none), and calling the binding must produce the "
             "result and the global side effect that the argument fold specifies (the same fold C04 validates against compiled C).",
-            "Host target only; va_list parameters are not generated; a failure to build or run the caller is attributed to the "
-            "whole library.",
+            "Host target only; calling a va_list wrapper is not done; a failure to build or run the caller is attributed to the "
+            "whole library; also run: 22 odd-type functions x {default, --prefix-link-name} through the CLI and six regenerate-after-"
+            "edit histories on one wrapper path.",
             "6/C16"),
 }
 
